@@ -429,7 +429,7 @@ def run_case(case, observe=None):
 
 def plan(tier, seed):
     quick = tier == "quick"
-    return [("gen", {"shard": i, "n": 120 if quick else 1200}) for i in range(16)]
+    return [("gen", {"shard": i, "n": 95 if quick else 1200}) for i in range(16)]
 
 
 def run_task(name, kw, ctx):
